@@ -21,23 +21,27 @@ def plan(tier, seed):
     lj = [{'ext': '.pt', 'dirs': 2, 'getitem': False, 'loads': 2}, {'ext': None, 'dirs': 2, 'getitem': True, 'loads': 2}]
     famL = dict(name='loader_leaves_caller_inputs_alone', module='checks.hC16', fn='zpt_loads', jobs=lj, timeout=900,
                 vacuity=1, mutants=[{'name': 'shared_search_path', 'cfg': lj[0]}])
+    kk = 10 if quick else 12
+    sj = [{'loader': True, 'k': kk, 'same': same, 'lead': lead} for same in (True, False) for lead in ((0, 18) if quick else (0, 6, 12, 18, 20))]
+    famS = dict(name='two_threads_shared_loader', module=H, fn='loader_threads', jobs=sj, timeout=900 if quick else 3000,
+                vacuity=1, mutants=[{'name': 'registry_placeholder', 'cfg': {'loader': True, 'k': 8, 'same': True}}])
     return dict(
         level='model_checking',
         functions=['chameleon.template:BaseTemplateFile.cook_check', 'chameleon.template:BaseTemplate.cook',
                    'chameleon.template:BaseTemplate.render', 'chameleon.zpt.template:PageTemplate.render',
                    'chameleon.zpt.template:Macros.__getitem__', 'chameleon.tal:RepeatDict',
                    'chameleon.compiler:Compiler.visit_Macro', 'chameleon.zpt.template:PageTemplateFile.__init__',
-                   'chameleon.loader:TemplateLoader.load'],
+                   'chameleon.loader:TemplateLoader.load', 'chameleon.loader:cache'],
         bounds=('two threads on one shared file template (first, lazily compiling use; and use after the file changed), '
                 'each doing render() or a macro lookup: every statement-level interleaving of the real cook_check and '
                 'cook for %d symbolic scheduling decisions after thread a has run ahead 0/5/10 (thorough: 0..12) statements (the remainder runs sequentially), mtime()/read() and the '
-                'compile step are stubs that tag each compiled function with the file version; determinism: 3 templates '
+                'compile step are stubs that tag each compiled function with the file version; two threads loading the same / different names through one shared loader (the real cache wrapper and TemplateLoader.load, instrumented; a stub template class), %d scheduling decisions after thread a has run ahead 0/18 (thorough 0/6/12/18/20) of its about 22 statements: each gets the template it would get alone and the loader then serves one instance per name; determinism: 3 templates '
                 '(global definitions, repeat state, macro, code block, caller-owned list/dict arguments) rendered twice on '
                 'one instance, on a second instance and after a render with other arguments, for all symbolic '
                 'arguments in range; loader: histories of 2 loads over 4 names x xml/text with every existence pattern of the candidate files leave the caller\'s search-path list unchanged and resolve independently of earlier loads. Outside: byte-code-granularity pre-emption, three threads, loader registry races '
                 '(both callers get equivalent templates), "across processes" (id()-derived identifiers cannot be given '
-                'to the solver).' % k),
+                'to the solver).' % (k, kk)),
         assumptions=['statement-granular interleaving (CPython may switch inside a statement)',
                      'compile step stubbed by a version-tagged function table: the subject is the publish protocol'],
-        families=[famT, famD, famL],
+        families=[famT, famS, famD, famL],
     )
